@@ -1,6 +1,7 @@
 package rules
 
 import (
+	"go/types"
 	"sort"
 	"strings"
 
@@ -50,6 +51,7 @@ func checkC06(r *Report, p *Program) {
 	r05_4(r, p)
 	// a delete addresses exactly the observed child it decided about (name, namespace, UID from one object) — shared with C02
 	r02_1(r, p, computeChildRoles(p))
+	oneWritePerChild(r, p, "R06.6")
 }
 
 // R06.1 method decision table.
@@ -594,4 +596,127 @@ func r06_5(r *Report, p *Program) {
 			r.Check(rule, c, p.InstrPos(cs.Instr), ok, "strategy="+us+" options="+opt, why)
 		}
 	}
+}
+
+// oneWritePerChild: in the per-child loops under ManageChildren
+//
+//	[no-write-after-failure] once a failure has been recorded for a child
+//	    (an error appended to the aggregate) no child write is reachable in the
+//	    same iteration — the step that failed produced what the write would send;
+//	[one-content-write] after a child content write (Create/Update/Delete/Apply
+//	    patch) no second content write is reachable in the same iteration — the
+//	    server-side-apply branch and the dynamic-apply branch exclude each other.
+func oneWritePerChild(r *Report, p *Program, rule string) {
+	r.Rule(rule, "per-child loops under ManageChildren: no child write after a recorded failure in the same iteration; no second content write after a content write in the same iteration (the JSON patch that strips the last-applied annotation before a server-side apply is the one preparatory write)")
+	sinks, fns := childSinks(p)
+	inFn := map[*ssa.Function][]engine.Sink{}
+	for _, s := range sinks {
+		inFn[s.Fn] = append(inFn[s.Fn], s)
+	}
+	isSink := func(f *ssa.Function) func(in ssa.Instruction) bool {
+		m := map[ssa.Instruction]bool{}
+		for _, s := range inFn[f] {
+			m[s.Instr.(ssa.Instruction)] = true
+		}
+		return func(in ssa.Instruction) bool { return m[in] }
+	}
+	preparatory := func(s engine.Sink) bool {
+		if s.Verb != "Patch" {
+			return false
+		}
+		for _, a := range s.Instr.Common().Args {
+			if c, ok := a.(*ssa.Const); ok && c.Value != nil && strings.Contains(c.Value.String(), "json-patch") {
+				return true
+			}
+		}
+		return false
+	}
+	n := 0
+	var names []string
+	for f := range fns {
+		if len(inFn[f]) > 0 {
+			names = append(names, FK(f))
+		}
+	}
+	sortStrings(names)
+	for _, name := range names {
+		f := p.Func(Short(name))
+		if f == nil {
+			continue
+		}
+		loops := engine.RangeLoops(f)
+		innermost := func(b *ssa.BasicBlock) *engine.RangeLoop {
+			var best *engine.RangeLoop
+			for _, l := range loops {
+				if l.InBody(b) && (best == nil || best.InBody(l.Header)) {
+					best = l
+				}
+			}
+			return best
+		}
+		sk := isSink(f)
+		// [no-write-after-failure]
+		ord := 0
+		for _, b := range f.Blocks {
+			for _, in := range b.Instrs {
+				c, isC := in.(*ssa.Call)
+				if !isC || engine.CallKey(c.Common()) != "builtin.append" || len(c.Common().Args) != 2 {
+					continue
+				}
+				sl, isSl := c.Type().Underlying().(*types.Slice)
+				if !isSl || !isErrorT(sl.Elem()) {
+					continue
+				}
+				l := innermost(b)
+				if l == nil {
+					continue
+				}
+				var at ssa.Instruction
+				w := engine.Query{Fn: f, From: []engine.Point{engine.After(c)},
+					CutInstr: func(x ssa.Instruction) bool { return x.Block() == l.Header || !l.InBody(x.Block()) },
+					Target: func(x ssa.Instruction) bool {
+						if sk(x) {
+							at = x
+							return true
+						}
+						return false
+					}}.Find()
+				why := ""
+				if w != nil {
+					why = "after this failure was recorded the same iteration still reaches the child write at " + p.InstrPos(at) + ": the write is sent on the strength of a step that failed"
+				}
+				r.Check(rule, sf("%s[no-write-after-failure]#%d", Short(name), ord), p.InstrPos(c), w == nil, "the iteration ends without a further child write", why)
+				ord++
+				n++
+			}
+		}
+		// [one-content-write]
+		for _, s := range inFn[f] {
+			if preparatory(s) {
+				continue
+			}
+			si := s.Instr.(ssa.Instruction)
+			l := innermost(si.Block())
+			if l == nil {
+				continue
+			}
+			var at ssa.Instruction
+			w := engine.Query{Fn: f, From: []engine.Point{engine.After(si)},
+				CutInstr: func(x ssa.Instruction) bool { return x.Block() == l.Header || !l.InBody(x.Block()) },
+				Target: func(x ssa.Instruction) bool {
+					if sk(x) {
+						at = x
+						return true
+					}
+					return false
+				}}.Find()
+			why := ""
+			if w != nil {
+				why = "after this write the same iteration reaches a second child write at " + p.InstrPos(at) + ": the child is written twice in one sync (server-side apply and dynamic apply are alternatives)"
+			}
+			r.Check(rule, s.Construct()+"[one-content-write]", p.InstrPos(si), w == nil, "last child write of its iteration", why)
+			n++
+		}
+	}
+	r.Floor(rule, 8)
 }
